@@ -18,7 +18,7 @@ class C02(Prop):
     verdict = "Estimator.verdict"
     shard = 60
     rule = ("ReceptorEstimator built from random dyadic filters (2-5 receptors) and sources (1-8), 3-12 domain points, scalar-step or "
-            "(non-)uniform array domain, K none/scalar/vector/matrix, baseline zero/scalar/vector, batches of 1-4 intensity vectors; compared: est.A, "
+            "(non-)uniform array domain, 30 % band-limited filters (all exactly zero at the ends of the domain), 40 % of the estimators used for gamut/fit queries before they are asked, K none/scalar/vector/matrix, baseline zero/scalar/vector, batches of 1-4 intensity vectors; compared: est.A, "
             "system_capture, system_relative_capture, capture/relative_capture of the mixed spectra, K and relative capture after "
             "register_background_adaptation and register_system_adaptation (add_baseline True/False). non-trivial = K not identity and "
             "(baseline non-zero or matrix K)")
@@ -40,6 +40,11 @@ class C02(Prop):
             else:
                 dom = [p / 4 for p in sorted(rng.sample(range(1200, 2800), nd))]
             F = [[dyad(rng, 0, 2, 16) for _ in range(nd)] for _ in range(m)]
+            band = None
+            if nd >= 5 and rng.random() < 0.3:
+                # sensitivities measured on a sub-range of a wider spectrometer domain: every filter exactly zero on a leading and/or trailing stretch
+                a = rng.randint(0, 2); z = rng.randint(0 if a else 1, 2)
+                F = [[(0.0 if (t < a or t >= nd - z) else (v or 0.5)) for t, v in enumerate(row)] for row in F]; band = (a, z)
             S = [[dyad(rng, 0, 2, 16) for _ in range(nd)] for _ in range(ns)]
             kk, K = gs.gen_K(rng, m)
             bk, base = gs.gen_baseline(rng, m)
@@ -65,8 +70,8 @@ class C02(Prop):
                 unc = [[[v * (1 + rng.randint(-8, 16) / 32) for v in row] for row in F] for _ in range(rng.randint(2, 5))]
             cases.append({"dom": dom, "F": F, "S": S, "K": (K.tolist() if isinstance(K, np.ndarray) else K), "Kkind": kk, "unit": unit, "bounds": bounds, "unc": unc,
                           "baseline": (base.tolist() if isinstance(base, np.ndarray) else base), "bkind": bk,
-                          "X": X, "bg": bg, "addb": rng.random() < 0.75, "decoy": rng.random() < 0.6,
-                          "kind": "K-%s/base-%s/%s%s%s%s" % (kk, bk, dk, "/unit2^50" if unit != 1.0 else "", "/bounds" if bounds else "", "/unc" if unc else "")})
+                          "X": X, "bg": bg, "addb": rng.random() < 0.75, "decoy": rng.random() < 0.6, "used": rng.random() < 0.4,
+                          "kind": "K-%s/base-%s/%s%s%s%s%s" % (kk, bk, dk, "/unit2^50" if unit != 1.0 else "", "/bounds" if bounds else "", "/unc" if unc else "", "/band" if band else "")})
         return cases
 
     def run_impl(self, case):
@@ -85,6 +90,11 @@ class C02(Prop):
                 e.relative_capture(S[0])
             bd = case.get("bounds")
             e.register_system(S, **({} if bd is None else {"lb": np.array(bd["lb"]), "ub": np.array(bd["ub"])}))
+            if case.get("used"):
+                # the estimator has been in use before it is asked: gamut and fit queries in relative captures (their outcome is not judged here)
+                t = np.atleast_2d(e.system_relative_capture(np.full(S.shape[0], 0.5)))
+                for fn in (lambda: e.in_hull(t, relative=True), lambda: e.fit(t), lambda: e.range_of_solutions(t, relative=True) if bd is not None else None):
+                    gs.warm(fn)
             return e
         est = mk()
         X = np.array(case["X"])
